@@ -106,19 +106,20 @@ def configs(tier):
         for loosen in (True, False):
             out.append(dict(profile="train", loosen=loosen, dis=0, stay=2))
             out.append(dict(profile="reset", loosen=loosen, dis=0, stay=1))
-        out.append(dict(profile="modes", loosen=True, dis=0, stay=1, start="idle"))
-        out.append(dict(profile="modes", loosen=True, dis=1, stay=1, start="idle"))
-        out.append(dict(profile="modes", loosen=True, dis=0, stay=1, start="u0"))
+        out.append(dict(profile="modes", loosen=True, dis=0, stay=1))
+        out.append(dict(profile="modes", loosen=True, dis=1, stay=1))
+        out.append(dict(profile="modes", loosen=False, dis=0, stay=1))
     else:
+        out.append(dict(profile="full", loosen=True, dis=0, stay=2))
+        out.append(dict(profile="full", loosen=True, dis=1, stay=1))
+        out.append(dict(profile="full", loosen=False, dis=0, stay=1))
+        out.append(dict(profile="full", loosen=False, dis=1, stay=1))
         for loosen in (True, False):
+            out.append(dict(profile="train", loosen=loosen, dis=0, stay=6))
             for dis in (0, 1):
-                out.append(dict(profile="train", loosen=loosen, dis=dis, stay=4))
-                out.append(dict(profile="reset", loosen=loosen, dis=dis, stay=3))
-                out.append(dict(profile="modes", loosen=loosen, dis=dis, stay=2))
-        for start in (None, "u0", "idle"):
-            c = dict(profile="full", loosen=True, dis=0, stay=2)
-            if start: c["start"] = start
-            out.append(c)
+                out.append(dict(profile="reset", loosen=loosen, dis=dis, stay=4))
+        for loosen, dis in ((True, 0), (True, 1), (False, 0)):
+            out.append(dict(profile="modes", loosen=loosen, dis=dis, stay=3))
     return out
 
 
